@@ -141,6 +141,8 @@ def run(F, rep):
     # ------------------------------------------------------------ A-VAR
     _varint(F, rep)
     _count_bounds(F, rep)
+    from rules import c12
+    c12.io_rule(F, rep, "C13-IO")        # the container's reads and writes are all-or-error calls
 
     # ------------------------------------------------------------ A-EMPTY
     rp = fn("read_part_data")
